@@ -68,6 +68,7 @@ func runC01(p *Prog, r *Report) {
 	typeArgsKeptRule(p, r, "C01.R14")
 	cloneBeforeExtendRule(p, r, "C01.R15", p.Chains())
 	c08R2(p, r, "C01.R16")
+	structIdentityRule(p, r, "C01.R17")
 }
 
 // reservedNames reads the initial lookup set from the map literal in namer.New.
